@@ -13,6 +13,13 @@ def main():
 
     jobs = json.load(open(sys.argv[1]))
     res = {}
+    # this process has used the library before anything is loaded: checks against the built-in categories
+    import numpy as np
+
+    import jaxtyping
+
+    for cname in ("Float", "Int", "Shaped", "Num"):
+        isinstance(np.zeros(2, dtype="float32"), getattr(jaxtyping, cname)[np.ndarray, "..."])
     for jid, b64 in jobs:
         try:
             ann = pickle.loads(base64.b64decode(b64))
